@@ -237,6 +237,7 @@ pub struct Rec {
     pub profile: &'static str,
     pub thorough: bool,
     active: bool,
+    pending: String,
 }
 
 impl Rec {
@@ -256,6 +257,7 @@ impl Rec {
             profile: if cfg!(debug_assertions) { "debug" } else { "release" },
             thorough: tier == "thorough",
             active: false,
+            pending: String::new(),
         }
     }
 
@@ -343,6 +345,11 @@ impl Rec {
             line.push(',');
             line.push_str(extra);
         }
+        if !self.pending.is_empty() {
+            line.push(',');
+            line.push_str(&self.pending);
+            self.pending.clear();
+        }
         let ok = match res {
             Ok(ret) => {
                 let same = before.iter().all(|(s, b)| self.snap(*s) == *b);
@@ -369,6 +376,12 @@ impl Rec {
         line.push('}');
         self.emit(&line);
         ok
+    }
+
+    /// extra JSON members for the next recorded call only
+    pub fn x(&mut self, extra: String) -> &mut Self {
+        self.pending = extra;
+        self
     }
 
     /// marker written (and flushed) before the call so that a crash or hang is attributable
@@ -531,4 +544,28 @@ impl Rec {
             Ret::none()
         });
     }
+}
+
+/// operand selectors for scalar forms: 'r' = next source register, 'c' = next scalar
+pub fn args(pat: &str) -> String {
+    let mut out = String::from("\"args\":[");
+    let (mut nr, mut nc) = (0, 0);
+    for (k, ch) in pat.chars().enumerate() {
+        if k > 0 {
+            out.push(',');
+        }
+        if ch == 'r' {
+            nr += 1;
+            out.push_str(&format!("{{\"r\":{}}}", nr));
+        } else {
+            nc += 1;
+            out.push_str(&format!("{{\"c\":{}}}", nc));
+        }
+    }
+    out.push(']');
+    out
+}
+/// extra members for a scalar form: type, scalars, operand selectors
+pub fn ex_sc(ty: &str, scs: &[Sc], pat: &str) -> String {
+    format!("\"ty\":\"{}\",\"sc\":{},{}", ty, sc_list(scs), args(pat))
 }
